@@ -627,9 +627,10 @@ def main():
     }
     if machinery_errors:
         ev["coverage"]["machinery_errors"] = machinery_errors
-    os.makedirs(os.path.join(VERIF, "evidence"), exist_ok=True)
-    with open(os.path.join(VERIF, "evidence", pid + ".json"), "w") as f:
-        json.dump(ev, f, indent=1)
+    if not args.no_proofs:   # development runs do not overwrite the evidence
+        os.makedirs(os.path.join(VERIF, "evidence"), exist_ok=True)
+        with open(os.path.join(VERIF, "evidence", pid + ".json"), "w") as f:
+            json.dump(ev, f, indent=1)
 
     for k in known_hits:
         print("KNOWN-FINDING: property=%s %s" % (pid, k))
